@@ -84,7 +84,7 @@ def run(m, chk):
         "Static discharge of structural clauses of C18: normalize does not obtain the upper limit as x * (1/x) (rule R: IEEE arithmetic does not round that to 1 for every x, x / x does); shift / scale / normalize commit once, "
         "last (through the validated setter); generator results depend on degree, npts and cls / weights. Spacing, simplicity of interior knots and invariance of evaluation under reparametrisation are not decided."
     )
-    chk.decides = ["E8 (exact knots stay exact under shift / scale / normalize and in the generators with cls = Fraction)", "R (no multiplication by a reciprocal of an own element)", "COMMIT-LAST(shift, scale, normalize)", "DEP-MAY of the generators", 'NORMALIZE-PATHS', 'SIBLING-CAST (weight() converts no weight to the class of another weight)']
+    chk.decides = ["TOL-ABSOLUTE (knot identity is decided on differences, never with a tolerance relative to the knots)", "E8 (exact knots stay exact under shift / scale / normalize and in the generators with cls = Fraction)", "R (no multiplication by a reciprocal of an own element)", "COMMIT-LAST(shift, scale, normalize)", "DEP-MAY of the generators", 'NORMALIZE-PATHS', 'SIBLING-CAST (weight() converts no weight to the class of another weight)']
     chk.not_decided = ["equal spacing / simple interior knots", "N_i over s*U+a at s*u+a equals N_i over U at u"]
     q = KV + "normalize"
     ctx = r.root(q)
@@ -133,3 +133,6 @@ def run(m, chk):
 
     ne8 = e8_sinks(chk, m.exact(), [KV + "shift", KV + "scale", KV + "normalize", G + "bezier", G + "integer", G + "uniform", G + "random", G + "weight"])
     chk.floor("E8", "sinks of the affine maps and the generators in the exact context", ne8, 8)
+    from .extra import tol_absolute
+
+    tol_absolute(r, chk, ["heavy.ImmutableKnotVector.__get_unique", "heavy.ImmutableKnotVector.__mult_single", "heavy.ImmutableKnotVector.__span_single", "heavy.ImmutableKnotVector.__valid_single", "heavy.ImmutableKnotVector.__is_valid"])
